@@ -755,3 +755,6 @@ def gpca_post(ctx, st, result):
 
 UNITS.append(Unit("C13", MOD + ":ParametersVisitor.get_parameters_call_attr", gpca_setup, gpca_post, never13, expect_cover=("return",),
                   trusted=["find_values_usage / match_call_that_uses_attr: static analysis of the member's body (harness)", "group_parameters: its own unit (here: returns a non-empty list for a non-empty input)"]))
+
+from contracts.share import carried as _carried  # noqa: E402
+UNITS += _carried("C13")
